@@ -23,7 +23,7 @@ def run_model(ctx, tag: str, maxsel: int, invs: list):
     return cases
 
 
-def reuse(spec, df, path: str):
+def reuse(spec, df, path: str, output: str = "pandas"):
     from formulaic import model_matrix
     from formulaic.errors import FactorEncodingError, FormulaMaterializationError
 
@@ -37,7 +37,7 @@ def reuse(spec, df, path: str):
                 mm = spec.get_model_matrix(df, context={}, ensure_full_rank=not spec.ensure_full_rank, cluster_by="numerical_factors")
             else:
                 mm = model_matrix(spec, df, context={})
-            names, cells, labels, index, _ = matlib.alpha_matrix(mm, "pandas")
+            names, cells, labels, index, _ = matlib.alpha_matrix(mm, output)
             out = {"st": "OK", "names": names, "cells": cells, "labels": labels}
         except FormulaMaterializationError as e:
             out = {"st": "ENCODING-ERROR", "cls": type(e).__name__, "msg": str(e)[:120]}
@@ -103,4 +103,23 @@ def replay_case(case):
                 n += 1
     if repr(sorted((k, repr(v)) for k, v in spec.transform_state.items())) + repr(spec.column_names) != state_before:
         bad.append({**base, "clause": "reuse-changed-the-spec"})
+    # gamma side: the model has no notion of the container of the result, so every case also stands for the spec recorded by a fit
+    # with output="numpy" / "sparse" (the spec records the output type and a replay encodes through the code path of that type: level
+    # codes of absent / unseen levels, nulls, kind guard); whole follow-up frames only, the row selections stay with the pandas spec
+    if not case["sel"]:
+        for output in ("numpy", "sparse"):
+            try:
+                fit_o = model_matrix(case["formula"], Tdf, output=output, context={})
+            except Exception as e:  # noqa
+                bad.append({**base, "spec": f"spec[output={output}]", "clause": "fit-failed", "observed": type(e).__name__ + ": " + str(e)[:100]})
+                continue
+            names, cells, _, _, _ = matlib.alpha_matrix(fit_o, output)
+            n += 1
+            if names != case["fit_names"] or cells != case["fit_cells"]:
+                bad.append({**base, "spec": f"spec[output={output}]", "clause": "fit-differs-from-model", "observed": [names, cells], "expected": [case["fit_names"], case["fit_cells"]]})
+                continue
+            for sname, s in ((f"spec[output={output}]", fit_o.model_spec), (f"pickled[output={output}]", pickle.loads(pickle.dumps(fit_o.model_spec)))):
+                for path in ("spec.get_model_matrix", "model_matrix(spec, data)")[: 2 if sname.startswith("spec") else 1]:
+                    bad += judge(case["whole"], reuse(s, Udf, path, output), {**base, "spec": sname, "path": path}, "")
+                    n += 1
     return bad, n
